@@ -84,6 +84,10 @@ def make_universe():
                 data = rc.write_p8(regions, data, version=8)
             with open(p, 'wb') as fh:
                 fh.write(data)
+    # modules that exist only in directories a load path may add (never under root)
+    for rel in ('abs/only_abs.lua', 'abs/lib/only_abslib.lua', 'abs/lib/only_abs.lua', 'outside/only_out.lua'):
+        with open(os.path.join(U, rel), 'wb') as fh:
+            fh.write(b'marker("' + rel.encode() + b'")\n')
     return U
 
 
@@ -177,14 +181,15 @@ def run_include(ctx, U, s, ext, cfg, hostile):
 LOAD_PATHS = ('default', 'rel_lib', 'q_lib', 'abs', 'env')
 
 
-def run_require(ctx, U, s, lp, hostile):
+def run_require(ctx, U, s, lp, hostile, form=None):
     from pico8 import tool
     root = os.path.join(U, 'root')
     main = os.path.join(root, 'main_req.lua')
     out = os.path.join(root, 'out_req.p8')
     if '"' in s or '\\' in s:
         return
-    form = ('paren', 'paren', 'paren', 'string_call', 'long_string_call', 'nested_string_call')[hash((s, lp)) % 6] if ']]' not in s and "'" not in s else 'paren'
+    if form is None:
+        form = ('paren', 'paren', 'paren', 'string_call', 'long_string_call', 'nested_string_call')[hash((s, lp)) % 6] if ']]' not in s and "'" not in s else 'paren'
     with open(main, 'wb') as fh:
         if form == 'paren':
             fh.write(b'q=1\nrequire("' + s.encode() + b'")\n')
@@ -298,6 +303,14 @@ def run_shard(spec, ctx):
                             run_require(ctx, U, s_, lp_first, hostile)
                             run_require(ctx, U, s_, 'default', hostile)
                             run_require(ctx, U, s_, 'rel_lib', hostile)
+                    # a module only an added directory provides: found while the load path names that directory, and out of reach
+                    # once it does not (lookups remembered from an earlier build would keep it reachable)
+                    for s_, lp_first in (('only_abs', 'env'), ('only_abslib', 'abs'), ('only_abs', 'abs'), ('lib/only_abs', 'env')):
+                        for lp_then in ('default', 'rel_lib', 'q_lib'):
+                            form = ('paren', 'string_call', 'nested_string_call')[rep % 3]
+                            run_require(ctx, U, s_, lp_first, hostile, form=form)
+                            run_require(ctx, U, s_, lp_then, hostile, form=form)
+                            ctx.feature('module_only_on_added_path_then_path_dropped')
                     # case variants of the root's own name are different directories
                     for s_ in ('../ROOT/sub/x', '../Root/x', '../../ROOT/x', 'SUB/x', '../SUB/x'):
                         run_include(ctx, U, s_, '.lua', 'subdir', hostile)
